@@ -740,10 +740,12 @@ func (r *rateLimiter) calculateUpstreamCondition(limitStore _interface.LimitStor
 			if !ok {
 				continue
 			}
+			// a condition written before the schema changed its type (or stopped being limited)
+			// still reports in the old type: it does not count towards the new one
 			switch {
-			case status.MaxRequestsInflight != nil:
+			case status.MaxRequestsInflight != nil && flowControlConfig.MaxRequestsInflight != nil:
 				level += float64(status.MaxRequestsInflight.Max) / float64(flowControlConfig.MaxRequestsInflight.Max)
-			case status.TokenBucket != nil:
+			case status.TokenBucket != nil && flowControlConfig.TokenBucket != nil:
 				level += float64(status.TokenBucket.QPS) / float64(flowControlConfig.TokenBucket.QPS)
 			}
 			requestLevelMap[status.Name] = level
